@@ -1,24 +1,105 @@
 (* Props/C03.v — property C03: every single-knee detector returns the corner index of an exact
-   two-slope elbow.  Theorems over exact reals (RNum), unbounded arm lengths, arbitrary positive
-   spacings.  Only statements, each closed by `exact`, with its assumptions printed. *)
+   two-slope elbow.  Tier A: theorems over exact reals (RNum) about the formulas the code evaluates,
+   for unbounded arm lengths and arbitrary positive spacings.  `elbow pts c m1 m2` (Proofs/ElbowBase.v):
+   x_0 < ... < x_{n-1};  y_i = y_c + m1 (x_i - x_c) for i <= c,  y_c + m2 (x_i - x_c) for i >= c;
+   m1 <> m2;  3 <= c <= n - 4.
+   Only statements, each closed by `exact`, with its assumptions printed. *)
 From Coq Require Import Reals List PrimFloat.
 From Knee Require Import Num NumR NumFloat NpList Model.Uts Model.DetectorsFormula
-  Proofs.ElbowBase Proofs.ElbowCurvature Proofs.ElbowMenger Run.JudgeC03.
+  Proofs.ElbowBase Proofs.ElbowCurvature Proofs.ElbowMenger Proofs.ElbowLmethod Proofs.ElbowDfdt Proofs.ElbowKneedle
+  Run.JudgeC03.
 Import ListNotations.
+Local Open Scope R_scope.
 
-(* curvature.knee *)
+(* ---- curvature: csd vanishes on collinear triples, is 2(m2-m1)/(x_{c+1}-x_{c-1}) <> 0 at c; curvature.knee = c *)
+Theorem C03_csd_elbow : forall (pts : list (R * R)) (c : nat) (m1 m2 : R), elbow pts c m1 m2 ->
+  (forall i, (1 <= i)%nat -> (i + 1 < length pts)%nat -> i <> c -> nth i (@csd RNum pts) 0 = 0) /\
+  nth c (@csd RNum pts) 0 = 2 * (m2 - m1) / (PX pts (c + 1) - PX pts (c - 1)) /\
+  nth c (@csd RNum pts) 0 <> 0.
+Proof. exact (fun pts c m1 m2 E => conj (csd_elbow_off pts c m1 m2 E)
+               (conj (csd_elbow_corner pts c m1 m2 E) (csd_elbow_corner_nonzero pts c m1 m2 E))). Qed.
+Print Assumptions C03_csd_elbow.
+
 Theorem C03_curvature_elbow : forall (pts : list (R * R)) (c : nat) (m1 m2 : R),
   elbow pts c m1 m2 -> @curvature_knee RNum pts = c.
 Proof. exact curvature_elbow. Qed.
 Print Assumptions C03_curvature_elbow.
 
-(* menger.knee *)
+(* ---- Menger: 0 on collinear triples, > 0 at c; menger.knee = c *)
+Theorem C03_menger_array_elbow : forall (pts : list (R * R)) (c : nat) (m1 m2 : R), elbow pts c m1 m2 ->
+  (forall i, (i < length pts)%nat -> i <> c -> @nth R i (@menger_array RNum pts) 0 = 0) /\
+  0 < @nth R c (@menger_array RNum pts) 0.
+Proof. exact (fun pts c m1 m2 E => conj (menger_array_off pts c m1 m2 E) (menger_array_corner pts c m1 m2 E)). Qed.
+Print Assumptions C03_menger_array_elbow.
+
 Theorem C03_menger_elbow : forall (pts : list (R * R)) (c : nat) (m1 m2 : R),
   elbow pts c m1 m2 -> @menger_knee RNum pts = c.
 Proof. exact menger_elbow. Qed.
 Print Assumptions C03_menger_elbow.
 
-(* non-vacuity: the hypothesis is satisfiable over the reals ... *)
+(* ---- L-method: the two-line error is 0 at the split c and > 0 at every other split 2..n-3 (both fits, both costs) *)
+Theorem C03_lmethod_error_elbow : forall (pts : list (R * R)) (c : nat) (m1 m2 : R) (fit : Fit) (cost : Cost),
+  elbow pts c m1 m2 ->
+  lerr pts fit cost c = 0 /\
+  (forall i, (2 <= i)%nat -> (i + 3 <= length pts)%nat -> i <> c -> 0 < lerr pts fit cost i).
+Proof. exact (fun pts c m1 m2 fit cost E =>
+               conj (lerr_corner pts c m1 m2 (elbow_welbow _ _ _ _ E) fit cost)
+                    (lerr_off pts c m1 m2 (elbow_welbow _ _ _ _ E) fit cost)). Qed.
+Print Assumptions C03_lmethod_error_elbow.
+
+Theorem C03_lmethod_elbow_pointfit_rmse : forall (pts : list (R * R)) (c : nat) (m1 m2 : R),
+  elbow pts c m1 m2 -> @lmethod_get_knee RNum pts point_fit rmse = c.
+Proof. exact lmethod_elbow_pointfit_rmse. Qed.
+Print Assumptions C03_lmethod_elbow_pointfit_rmse.
+Theorem C03_lmethod_elbow_pointfit_rss : forall (pts : list (R * R)) (c : nat) (m1 m2 : R),
+  elbow pts c m1 m2 -> @lmethod_get_knee RNum pts point_fit rss = c.
+Proof. exact lmethod_elbow_pointfit_rss. Qed.
+Print Assumptions C03_lmethod_elbow_pointfit_rss.
+Theorem C03_lmethod_elbow_bestfit_rmse : forall (pts : list (R * R)) (c : nat) (m1 m2 : R),
+  elbow pts c m1 m2 -> @lmethod_get_knee RNum pts best_fit rmse = c.
+Proof. exact lmethod_elbow_bestfit_rmse. Qed.
+Print Assumptions C03_lmethod_elbow_bestfit_rmse.
+Theorem C03_lmethod_elbow_bestfit_rss : forall (pts : list (R * R)) (c : nat) (m1 m2 : R),
+  elbow pts c m1 m2 -> @lmethod_get_knee RNum pts best_fit rss = c.
+Proof. exact lmethod_elbow_bestfit_rss. Qed.
+Print Assumptions C03_lmethod_elbow_bestfit_rss.
+
+(* the refinement loop re-finds c on the truncated curve and stops: every fit, every refinement, every limit *)
+Theorem C03_lmethod_refine_elbow : forall (pts : list (R * R)) (c : nat) (m1 m2 : R) (fit : Fit) (it : Refinement) (limit : nat),
+  elbow pts c m1 m2 -> @lmethod_knee RNum pts fit it limit = Some c.
+Proof. exact lmethod_refine_elbow. Qed.
+Print Assumptions C03_lmethod_refine_elbow.
+
+(* ---- DFDT: cfd of an elbow is m1 (c times), one g strictly between, m2 (n-1-c times) *)
+Theorem C03_cfd_elbow : forall (pts : list (R * R)) (c : nat) (m1 m2 : R), elbow pts c m1 m2 ->
+  @cfd RNum pts = two_level m1 (corner_gradient pts c m1 m2) m2 c (length pts - 1 - c) /\
+  between m1 (corner_gradient pts c m1 m2) m2.
+Proof. exact (fun pts c m1 m2 E => conj (cfd_elbow pts c m1 m2 E) (corner_gradient_between pts c m1 m2 E)). Qed.
+Print Assumptions C03_cfd_elbow.
+
+(* ISODATA on `p copies of u, one g strictly between, q copies of v` (p, q >= 1), for every eps and every positive
+   iteration budget, returns TA = ((p u + g)/(p+1) + v)/2 or TB = (u + (g + q v)/(q+1))/2, and g is strictly closer
+   to the result than u and v — whichever way the loop exits *)
+Theorem C03_isodata_two_level : forall (u g v : R) (p q : nat), between u g v -> (1 <= p)%nat -> (1 <= q)%nat ->
+  forall (eps : R) (max_iter : nat), (1 <= max_iter)%nat ->
+  let T := @isodata_fuel RNum max_iter (two_level u g v p q) eps in
+  (T = TA u g v p \/ T = TB u g v q) /\ Rabs (g - T) < Rabs (u - T) /\ Rabs (g - T) < Rabs (v - T).
+Proof. exact isodata_two_level. Qed.
+Print Assumptions C03_isodata_two_level.
+
+Theorem C03_dfdt_elbow : forall (pts : list (R * R)) (c : nat) (m1 m2 eps : R),
+  elbow pts c m1 m2 -> @dfdt_knee RNum eps pts = Some c.
+Proof. exact dfdt_elbow. Qed.
+Print Assumptions C03_dfdt_elbow.
+
+(* ---- Kneedle at t = 0 on monotone elbows *)
+Theorem C03_kneedle_elbow : forall (pts : list (R * R)) (c : nat) (m1 m2 : R) (expm : R -> R),
+  elbow pts c m1 m2 -> (0 <= m1 /\ 0 <= m2) \/ (m1 <= 0 /\ m2 <= 0) ->
+  @kneedle_knee RNum expm pts 0 = Some c.
+Proof. exact kneedle_elbow. Qed.
+Print Assumptions C03_kneedle_elbow.
+
+(* ---- non-vacuity: the hypothesis is satisfiable over the reals ... *)
 Theorem C03_elbow_example : elbow elbow_example 3 (-2) (-1 / 4).
 Proof. exact elbow_example_ok. Qed.
 Print Assumptions C03_elbow_example.
@@ -27,6 +108,14 @@ Print Assumptions C03_elbow_example.
 Definition fex : list (float * float) :=
   [(0, 11); (1, 9); (3, 5); (4, 3); (6, 2.5); (7, 2.25); (9, 1.75); (10, 1.5)]%float.
 Example C03_example_float :
-  elbowb fex 3 (-2)%float (-0.25)%float = true /\
-  @curvature_knee FloatNum fex = 3 /\ @menger_knee FloatNum fex = 3.
+  elbowb fex 3 (-2)%float (-0.25)%float = true /\ monotoneb (-2)%float (-0.25)%float = true /\
+  forallb (fun o => opt_eqb o (Some 3%nat)) (model_outputs fex 10 true) = true /\
+  length (model_outputs fex 10 true) = 14%nat.
+Proof. vm_compute. auto. Qed.
+(* a V-shaped elbow (slopes of opposite sign): every detector except Kneedle *)
+Definition fexV : list (float * float) :=
+  [(0, 8); (2, 4); (3, 2); (4, 0); (5, 0.5); (7, 1.5); (8, 2); (12, 4)]%float.
+Example C03_example_float_V :
+  elbowb fexV 3 (-2)%float (0.5)%float = true /\ monotoneb (-2)%float (0.5)%float = false /\
+  forallb (fun o => opt_eqb o (Some 3%nat)) (model_outputs fexV 3 false) = true.
 Proof. vm_compute. auto. Qed.
